@@ -26,7 +26,7 @@ RULE = ('Inputs: small Hypothesis-drawn well-sorted scripts (typed generator, de
         'hangs: every filter/mutations/global_mutations/apply call runs under a 3 s '
         'CPU-time limit (inputs have < 120 nodes).  (d) real runs (launcher) against '
         'adversarial hash-class commands: the sequence of contents written to the '
-        'output file must not repeat.  Non-trivial: an input with >= 1 non-shortening '
+        'output file must not repeat.  Real runs against a command that hangs on some candidates (sleeps, ignores SIGTERM, wrapper whose child keeps the pipes open) must not stall (C10 fault runs, stall witness only).  Non-trivial: an input with >= 1 non-shortening '
         'edge (in-process) / a run with >= 3 accepted steps (d); distinct = distinct '
         'input.')
 ASSUMPTIONS = [
@@ -354,7 +354,24 @@ def e2e_case(draw):
     return c
 
 
+def stall_runs(ctx, acc):
+    """"Finitely many tests, then stops" also when the command hangs on some candidates
+    (sleeps, ignores SIGTERM, is a wrapper whose child keeps the pipes open): C10's fault
+    runs; only its stall witness counts here."""
+    from checks import c10
+    facc = runner.BorrowedAcc(acc, 'faulty-command/', dict(kind='fault-run'), keep=lambda k: k.startswith('stall'))
+    n = [0]
+
+    def body(case):
+        n[0] += 1
+        nt, classes = c10.run_fault_case(case, facc, os.path.join(ctx.workdir, f'fault{n[0] % 3}'))
+        facc.case(case, nontrivial=nt, classes=classes)
+
+    runner.hyp_run(ctx, c10.fault_case(), body, ctx.share(32 if ctx.quick else 800), salt=37)
+
+
 def shard(ctx, acc):
+    stall_runs(ctx, acc)
     dd = env.load()
     guard.limit_memory(4)
     env.set_options(dd, ['in.smt2', 'out.smt2', '/bin/true'])
@@ -402,7 +419,11 @@ def replay(case, acc, ctx):
     dd = env.load()
     guard.limit_memory(4)
     env.set_options(dd, ['in.smt2', 'out.smt2', '/bin/true'])
-    if case.get('kind') == 'e2e':
+    if case.get('kind') == 'fault-run':
+        from checks import c10
+        c10.run_fault_case(case, runner.BorrowedAcc(acc, 'faulty-command/', dict(kind='fault-run'),
+                                                    keep=lambda k: k.startswith('stall')), os.path.join(ctx.workdir, 'replay'))
+    elif case.get('kind') == 'e2e':
         run_e2e(case, acc, os.path.join(ctx.workdir, 'replay'))
     elif case.get('kind') == 'scaling-template':
         enumerate_edges(dd, [model.to_node(dd, c) for c in case['cmds']], all_mutators(dd), acc, case)
